@@ -55,8 +55,9 @@ Lemma geneq_BitmapConc_is_bit_set : forall g i,
   | _ => False
   end.
 Proof.
-  intros. unfold prog_of, Gen.AtomicBitmap.is_bit_set. destruct (i <? g_size g); [|reflexivity].
-  intros ld. rewrite shl64_bit_mask. reflexivity.
+  intros. unfold prog_of, Gen.AtomicBitmap.is_bit_set. geneq_norm.
+  destruct (i <? g_size g); cbn [negb]; [|reflexivity].
+  intros ld. rewrite ?shl64_bit_mask. reflexivity.
 Qed.
 
 (* set_reset_addr_range: the early return and the (first_bit, last_bit) the loop runs over *)
